@@ -7,7 +7,72 @@ from . import _inst, _layout, _pipe
 from .C01 import atoms_of_desc
 
 
+def memo_rule(index, ctx):
+    """A memo is sound only if its key determines the memoised value. `if k not in d: d[k] = f(k, x)` with `x` a parameter that the key
+    does not mention hands back, on a later call with another `x`, what was built for the first one. Here the differentiation callable is
+    such an `x`: the sweeps before the last are bound to retain_graph=True, the last one to the caller's flag."""
+    import ast
+
+    from ..report import norm_text
+
+    ctx.rule("R4", "no memo in the differentiation stages is keyed by less than what its value is computed from: a callable (or tensor) built from the VJP function of one sweep "
+                   "is never handed to another sweep because the two agree on a number of rows")
+    n = 0
+    fns = list(index.all_functions("torchjd.autojac._transform"))
+    for fi in fns:
+        params = [a.arg for a in fi.node.args.args + fi.node.args.kwonlyargs if a.arg not in ("self", "cls")]
+        for iff in [x for x in ast.walk(fi.node) if isinstance(x, ast.If)]:
+            t = iff.test
+            if not (isinstance(t, ast.Compare) and len(t.ops) == 1 and isinstance(t.ops[0], ast.NotIn)):
+                continue
+            kexp, dexp = t.left, t.comparators[0]
+            st = next((b for b in iff.body if isinstance(b, ast.Assign) and len(b.targets) == 1 and isinstance(b.targets[0], ast.Subscript)
+                       and norm_text(b.targets[0].value) == norm_text(dexp) and norm_text(b.targets[0].slice) == norm_text(kexp)), None)
+            if st is None:
+                continue
+            n += 1
+            knames = {x.id for x in ast.walk(kexp) if isinstance(x, ast.Name)}
+            # locals the key is computed from count as named by the key
+            for a_ in ast.walk(fi.node):
+                if isinstance(a_, ast.Assign) and len(a_.targets) == 1 and isinstance(a_.targets[0], ast.Name) and a_.targets[0].id in knames:
+                    knames |= {x.id for x in ast.walk(a_.value) if isinstance(x, ast.Name)}
+            dname = next((x.id for x in ast.walk(dexp) if isinstance(x, ast.Name)), None)
+            extra = sorted(({x.id for x in ast.walk(st.value) if isinstance(x, ast.Name)} & set(params)) - knames - {dname})
+            key_ = f"{fi.short}: memo `{norm_text(dexp)}[{norm_text(kexp)}]`"
+            if not extra:
+                ctx.ok("R4", key_, "the value is computed from the key (and module-level names) only", fi.loc(st))
+                continue
+            shared = dname == "self" or dname not in params
+            if not shared:
+                # the dictionary is handed in by the callers: does one dictionary meet several values of the parameter the key leaves out?
+                sites = [c for g in fns for c in ast.walk(g.node) if isinstance(c, ast.Call) and isinstance(c.func, (ast.Name, ast.Attribute))
+                         and (c.func.id if isinstance(c.func, ast.Name) else c.func.attr) == fi.name]
+                def arg_of(c, pname):
+                    kw = next((k.value for k in c.keywords if k.arg == pname), None)
+                    if kw is not None:
+                        return kw
+                    off = params.index(pname)
+                    return c.args[off] if off < len(c.args) else None
+                by_dict: dict = {}
+                for c in sites:
+                    d_, xs = arg_of(c, dname), tuple(norm_text(arg_of(c, p_)) if arg_of(c, p_) is not None else "?" for p_ in extra)
+                    if d_ is not None:
+                        by_dict.setdefault(norm_text(d_), set()).add(xs)
+                shared = any(len(v) > 1 for v in by_dict.values())
+                detail = "; ".join(f"`{d_}` is passed together with {sorted(v)}" for d_, v in by_dict.items() if len(v) > 1)
+            else:
+                detail = f"`{norm_text(dexp)}` outlives the call"
+            if shared:
+                ctx.violated("R4", key_, f"`{norm_text(st)[:90]}` is computed from {extra} as well, which the key `{norm_text(kexp)}` does not name ({detail}): a later call with the same key and another "
+                             f"{extra[0]} receives the value built for the first — the last sweep runs the callable bound to retain_graph=True, so the graph is kept although the caller asked for it to be freed", fi.loc(st))
+            else:
+                ctx.ok("R4", key_, f"the dictionary never meets two values of {extra}", fi.loc(st))
+    if not n:
+        ctx.ok("R4", "differentiation stages", "no memo (`if k not in d: d[k] = ...`) in the transform package", "")
+
+
 def check(index, ctx):
+    memo_rule(index, ctx)
     ctx.rule("R1", "at every torch.autograd.grad site the retain_graph argument is, by interprocedural value flow, either the entry point's own retain_graph parameter unmodified "
              "or the literal True; single-sweep differentiations (task gradients) use the parameter")
     ctx.rule("R2", "among the sweeps of one Jacobian, the last one executed carries the caller's flag and every earlier one the literal True (so retain_graph=False works for every chunk size and frees the graph exactly once, at the end)")
